@@ -72,111 +72,290 @@ class Scanner:
         return None
 
 
+PREFIX = "no_"
+
+
+def _subst(e, env):
+    """Copy of expression *e* with local names replaced by their symbolic values."""
+    import copy as _copy
+
+    class S(ast.NodeTransformer):
+        def visit_Name(self, n):
+            if isinstance(n.ctx, ast.Load) and n.id in env:
+                return _copy.deepcopy(env[n.id])
+            return n
+    return S().visit(_copy.deepcopy(e))
+
+
+def _assign_env(st, env):
+    """Update *env* for an assignment statement (names and tuple-to-tuple unpacking)."""
+    if isinstance(st, ast.Assign) and len(st.targets) == 1:
+        t, v = st.targets[0], st.value
+        if isinstance(t, ast.Name):
+            env[t.id] = _subst(v, env)
+            return True
+        if isinstance(t, ast.Tuple) and isinstance(v, ast.Tuple) and len(t.elts) == len(v.elts) and all(isinstance(x, ast.Name) for x in t.elts):
+            vals = [_subst(x, env) for x in v.elts]
+            for x, val in zip(t.elts, vals):
+                env[x.id] = val
+            return True
+        if isinstance(t, ast.Tuple) and all(isinstance(x, ast.Name) for x in t.elts):
+            val = _subst(v, env)
+            for i, x in enumerate(t.elts):
+                env[x.id] = ast.Subscript(value=val, slice=ast.Constant(value=i), ctx=ast.Load())
+            return True
+    return False
+
+
+def _assigned_in(stmts):
+    out = set()
+    for st in stmts:
+        for n in ast.walk(st):
+            if isinstance(n, ast.Name) and isinstance(n.ctx, ast.Store):
+                out.add(n.id)
+    return out
+
+
+def symbolic_path(loop, call):
+    """Walk from the start of *loop*'s body to the statement containing *call*: returns (env, conds) where env maps
+    local names to expressions over the loop variable and conds is [(expr, polarity)] of the enclosing tests."""
+    env, conds = {}, []
+
+    def walk(stmts):
+        for st in stmts:
+            contains = any(x is call for x in ast.walk(st))
+            if not contains:
+                if isinstance(st, ast.If):
+                    test = _subst(st.test, env)
+                    e1, e2 = dict(env), dict(env)
+                    for x in st.body:
+                        _assign_env(x, e1)
+                    for x in st.orelse:
+                        _assign_env(x, e2)
+                    for name in _assigned_in(st.body) | _assigned_in(st.orelse):
+                        a, b = e1.get(name, ast.Name(id=name, ctx=ast.Load())), e2.get(name, ast.Name(id=name, ctx=ast.Load()))
+                        env[name] = ast.IfExp(test=test, body=a, orelse=b)
+                else:
+                    _assign_env(st, env)
+                continue
+            if isinstance(st, ast.If):
+                test = _subst(st.test, env)
+                if any(any(x is call for x in ast.walk(y)) for y in st.body):
+                    conds.append((test, True))
+                    return walk(st.body)
+                conds.append((test, False))
+                return walk(st.orelse)
+            if isinstance(st, (ast.For, ast.While, ast.With, ast.Try)):
+                return walk(st.body)
+            return True
+        return False
+    walk(loop.body)
+    return env, conds
+
+
+def _strip_chain(e):
+    """Peel .strip()/.lstrip()/.rstrip() (no argument) off *e*; returns inner expression."""
+    while isinstance(e, ast.Call) and isinstance(e.func, ast.Attribute) and e.func.attr in ("strip", "lstrip", "rstrip") and not e.args:
+        e = e.func.value
+    return e
+
+
+def _norm_tag(e, loopvar):
+    """Is *e* the loop variable passed through strip() and replace('-','_') (replace required)? -> True/False/None"""
+    saw_replace = False
+    cur = e
+    while True:
+        if isinstance(cur, ast.Call) and isinstance(cur.func, ast.Attribute) and cur.func.attr in ("strip", "lstrip", "rstrip") and not cur.args:
+            cur = cur.func.value
+        elif isinstance(cur, ast.Call) and isinstance(cur.func, ast.Attribute) and cur.func.attr == "replace" and len(cur.args) == 2 \
+                and all(isinstance(a, ast.Constant) for a in cur.args) and (cur.args[0].value, cur.args[1].value) == ("-", "_"):
+            saw_replace = True
+            cur = cur.func.value
+        else:
+            break
+    if isinstance(cur, ast.Name) and cur.id == loopvar:
+        return saw_replace
+    return None
+
+
+def _prefix_test(e, loopvar):
+    """If *e* tests the 'no_' prefix of a tag expression return (tag_expr, normalised?) else None."""
+    if isinstance(e, ast.Call) and isinstance(e.func, ast.Attribute) and e.func.attr == "startswith" and len(e.args) == 1 \
+            and isinstance(e.args[0], ast.Constant) and e.args[0].value == PREFIX:
+        n = _norm_tag(e.func.value, loopvar)
+        if n is not None:
+            return e.func.value, n
+    if isinstance(e, ast.Compare) and len(e.ops) == 1 and isinstance(e.ops[0], ast.Eq):
+        for a, b in ((e.left, e.comparators[0]), (e.comparators[0], e.left)):
+            if isinstance(b, ast.Constant) and b.value == PREFIX and isinstance(a, ast.Subscript) and isinstance(a.slice, ast.Slice) \
+                    and a.slice.lower is None and _int_of(a.slice.upper) == len(PREFIX):
+                n = _norm_tag(a.value, loopvar)
+                if n is not None:
+                    return a.value, n
+    return None
+
+
+def _int_of(e):
+    if isinstance(e, ast.Constant) and isinstance(e.value, int):
+        return e.value
+    if isinstance(e, ast.Call) and norm(e.func) == "len" and len(e.args) == 1 and isinstance(e.args[0], ast.Constant) and isinstance(e.args[0].value, str):
+        return len(e.args[0].value)
+    return None
+
+
+def fold(e, loopvar, pol):
+    """Partially evaluate *e* assuming the prefix test is *pol*: constants, not/and/or, IfExp, == on constants."""
+    if _prefix_test(e, loopvar) is not None:
+        return ast.Constant(value=pol)
+    if isinstance(e, ast.UnaryOp) and isinstance(e.op, ast.Not):
+        v = fold(e.operand, loopvar, pol)
+        if isinstance(v, ast.Constant) and isinstance(v.value, bool):
+            return ast.Constant(value=not v.value)
+        return ast.UnaryOp(op=ast.Not(), operand=v)
+    if isinstance(e, ast.IfExp):
+        t = fold(e.test, loopvar, pol)
+        if isinstance(t, ast.Constant) and isinstance(t.value, bool):
+            return fold(e.body if t.value else e.orelse, loopvar, pol)
+        return ast.IfExp(test=t, body=fold(e.body, loopvar, pol), orelse=fold(e.orelse, loopvar, pol))
+    if isinstance(e, ast.BoolOp):
+        vals = [fold(v, loopvar, pol) for v in e.values]
+        consts = [v.value for v in vals if isinstance(v, ast.Constant) and isinstance(v.value, bool)]
+        if len(consts) == len(vals):
+            return ast.Constant(value=all(consts) if isinstance(e.op, ast.And) else any(consts))
+        return ast.BoolOp(op=e.op, values=vals)
+    if isinstance(e, ast.Subscript) and isinstance(e.value, ast.Tuple) and isinstance(e.slice, ast.Constant) and isinstance(e.slice.value, int):
+        return fold(e.value.elts[e.slice.value], loopvar, pol)
+    return e
+
+
 def run(repo: Repo, chk: Check):
     chk.rule("R15.a", "a directive name is applied only if it is a CompileOptions dataclass field (not hasattr)", floor=1)
-    chk.rule("R15.b", "'-' is normalised to '_' before the 'no_' prefix test, and the prefix is stripped only when it matched", floor=2)
-    chk.rule("R15.c", "directive parsing is dominated by a startswith('#') test on the stripped line of the main source", floor=2)
-    chk.rule("R15.d", "only the named attribute of the local options object is assigned, with the polarity value", floor=2)
+    chk.rule("R15.b", "'-' is normalised to '_' before the 'no_' prefix test, and exactly that prefix is removed from a negated name", floor=2)
+    chk.rule("R15.c", "directive parsing is dominated by a test that the stripped line of the main source starts with '#'", floor=2)
+    chk.rule("R15.d", "only the named attribute of the call's private options object is assigned, with the polarity value", floor=2)
     chk.rule("R15.e", "the scan runs before any option is read; lines and names are visited in source order without break (last wins)", floor=3)
     sc = Scanner(repo)
     chk.saw("compiler", "compile_code")
     cfg, rd = sc.cfg, sc.rd
     if not sc.setattrs:
         raise AnalysisError("compile_code: no setattr site (directive application) found")
-    for n, call in sc.setattrs:
+    fields = set(sc.fields)
+    pending_error = None
+    for idx, (n, call) in enumerate(sc.setattrs):
         obj, name, val = call.args
-        key = f"compiler:compile_code:{norm(call)}"
-        guards = cfg.guards(n.id)
-        # R15.a membership
-        ok = False
-        seen = []
-        for test, pol in guards:
-            if not isinstance(test, ast.expr):
-                continue
-            seen.append((norm(test), pol))
-            if pol and isinstance(test, ast.Compare) and len(test.ops) == 1 and isinstance(test.ops[0], ast.In) and norm(test.left) == norm(name):
-                rhs = test.comparators[0]
-                t = norm(rhs)
-                if t.endswith("__dataclass_fields__") and ("CompileOptions" in t or norm(obj) in t or "type(" in t):
-                    ok = True
-                elif isinstance(rhs, (ast.Tuple, ast.List, ast.Set)) and all(isinstance(e, ast.Constant) for e in rhs.elts):
-                    ok = {e.value for e in rhs.elts} <= set(sc.fields)
-                elif "fields(" in t and ("CompileOptions" in t or norm(obj) in t):
-                    ok = True
-        chk.judge("R15.a", key + ":membership", ok,
-                  f"setattr is not guarded by membership of {norm(name)} in the CompileOptions field set (guards: {seen})",
-                  {"fields": sorted(sc.fields)}, f"{sc.mod.path}:{call.lineno} in compile_code")
-        # R15.c '#' guard
+        key = f"compiler:compile_code:setattr #{idx + 1}" if len(sc.setattrs) > 1 else "compiler:compile_code:setattr"
+        where = f"{sc.mod.path}:{call.lineno} in compile_code"
+        # ---- the loop over the names of one directive
+        tag_loop = None
+        p = getattr(call, "parent", None)
+        while p is not None and p is not sc.fn:
+            if isinstance(p, ast.For) and isinstance(p.target, ast.Name):
+                it_txt = norm(p.iter)
+                if isinstance(p.iter, ast.Name):
+                    ids_ = [x.id for x in cfg.nodes_of(p.iter)]
+                    it_txt = " ".join(norm(d.value) for d in (rd.at(ids_[0], p.iter.id) if ids_ else []) if d.value is not None)
+                if ".split(" in it_txt and ".splitlines" not in it_txt.split(".split(")[-1] and ("','" in it_txt or '","' in it_txt):
+                    tag_loop = p
+                    break
+            p = getattr(p, "parent", None)
+        if tag_loop is None:
+            # applied outside the scan (from a collection filled by it): judged by the ordering rule R15.e below
+            pending_error = "compile_code: the loop over the comma-separated names of a directive was not found around setattr"
+            continue
+        T = tag_loop.target.id
+        env, conds = symbolic_path(tag_loop, call)
+        name_e, val_e = _subst(name, env), _subst(val, env)
+        # does the path constrain the prefix test?
+        pols = []
+        for pol in (False, True):
+            feasible = True
+            for c, want in conds:
+                fc = fold(c, T, pol)
+                if isinstance(fc, ast.Constant) and isinstance(fc.value, bool) and fc.value != want:
+                    feasible = False
+            if feasible:
+                pols.append(pol)
+        saw_prefix = any(_prefix_test(x, T) is not None for e in [name_e, val_e] + [c for c, _ in conds] for x in ast.walk(e))
+        if not saw_prefix:
+            raise AnalysisError(f"compile_code: no test for the '{PREFIX}' prefix found on the way to setattr")
+        # R15.b: the prefix test looks at the normalised tag
+        unnorm = [norm(t[0]) for e in [name_e, val_e] + [c for c, _ in conds] for x in ast.walk(e) for t in [_prefix_test(x, T)] if t is not None and t[1] is False]
+        chk.judge("R15.b", key + ":'-' normalised before the 'no_' test", not unnorm,
+                  f"the '{PREFIX}' prefix is tested on {unnorm}, before '-' has been replaced by '_': 'no-x' would not be recognised as a negation", None, where)
+        for pol in pols:
+            nm = fold(name_e, T, pol)
+            vv = fold(val_e, T, pol)
+            case = "negated name (no_x)" if pol else "plain name"
+            # value
+            okv = isinstance(vv, ast.Constant) and vv.value is (not pol)
+            chk.judge("R15.d", key + f":value for a {case}", okv,
+                      f"for a {case} the option is set to {norm(vv)}, expected {not pol}", {"value": norm(vv)}, where)
+            # name
+            inner = _strip_chain(nm)
+            if pol:
+                ok_name = False
+                why = f"the attribute assigned for 'no_x' is {norm(nm)}"
+                if isinstance(inner, ast.Subscript) and isinstance(inner.slice, ast.Slice) and inner.slice.upper is None and inner.slice.step is None:
+                    k = _int_of(inner.slice.lower)
+                    if _norm_tag(inner.value, T):
+                        ok_name = k == len(PREFIX)
+                        why += f": it drops {k} characters, the prefix has {len(PREFIX)}"
+                elif isinstance(inner, ast.Call) and isinstance(inner.func, ast.Attribute) and inner.func.attr == "removeprefix" and len(inner.args) == 1 \
+                        and isinstance(inner.args[0], ast.Constant) and inner.args[0].value == PREFIX and _norm_tag(inner.func.value, T):
+                    ok_name = True
+                elif isinstance(inner, ast.Call) and isinstance(inner.func, ast.Attribute) and inner.func.attr in ("lstrip", "strip", "replace"):
+                    why += ": stripping a character set / replacing the text also eats letters of the option name itself"
+                else:
+                    raise AnalysisError(f"compile_code: name expression {norm(nm)} for a negated directive not understood")
+                chk.judge("R15.b", key + ":exactly the prefix is removed from a negated name", ok_name, why, {"name": norm(nm)}, where)
+            else:
+                t = _norm_tag(inner, T)
+                if t is None:
+                    raise AnalysisError(f"compile_code: name expression {norm(nm)} for a plain directive not understood")
+                chk.judge("R15.b", key + ":a plain name is used as written (normalised)", bool(t), f"the attribute assigned is {norm(nm)}", {"name": norm(nm)}, where)
+            # membership
+            okm = False
+            seen = []
+            for c, want in conds:
+                fc = fold(c, T, pol)
+                seen.append(norm(fc) + ("" if want else " is False"))
+                if want and isinstance(fc, ast.Compare) and len(fc.ops) == 1 and isinstance(fc.ops[0], ast.In) and norm(fold(fc.left, T, pol)) == norm(nm):
+                    okm = okm or _is_field_set(repo, sc, fc.comparators[0], fields)
+            chk.judge("R15.a", key + f":membership ({case})", okm,
+                      f"setattr is not guarded by membership of the name in the CompileOptions field set (guards: {seen}): an unknown name "
+                      f"such as '__class__' would be assigned", {"fields": sorted(fields)}, where)
+        # ---- R15.c '#' guard on the stripped line
         hash_guard = None
-        for test, pol in guards:
-            if isinstance(test, ast.Call) and isinstance(test.func, ast.Attribute) and test.func.attr == "startswith" and pol \
-                    and test.args and isinstance(test.args[0], ast.Constant) and test.args[0].value == "#":
-                hash_guard = test
+        for test, pol in cfg.guards(n.id):
+            if not isinstance(test, ast.expr) or not pol:
+                continue
+            if isinstance(test, ast.Call) and isinstance(test.func, ast.Attribute) and test.func.attr == "startswith" and test.args \
+                    and isinstance(test.args[0], ast.Constant) and test.args[0].value == "#":
+                hash_guard = (test, test.func.value)
+            if isinstance(test, ast.Compare) and len(test.ops) == 1 and isinstance(test.ops[0], ast.Eq) and isinstance(test.comparators[0], ast.Constant) \
+                    and test.comparators[0].value == "#" and isinstance(test.left, ast.Subscript):
+                sl = test.left.slice
+                if (isinstance(sl, ast.Slice) and sl.lower is None and _int_of(sl.upper) == 1) or _int_of(sl) == 0:
+                    hash_guard = (test, test.left.value)
         chk.judge("R15.c", key + ":'#' guard", hash_guard is not None,
-                  "applying a directive is not dominated by <line>.startswith('#')", None, f"{sc.mod.path}:{call.lineno} in compile_code")
-        if hash_guard is not None and isinstance(hash_guard.func.value, ast.Name):
-            lname = hash_guard.func.value.id
-            tnodes = [x.id for x in cfg.nodes_of(hash_guard)]
-            d = sc.single_def(lname, tnodes[0]) if tnodes else None
-            t = norm(d.value) if d is not None and d.value is not None else None
-            ok = d is not None and d.kind == "assign" and t in (f"{lname}.strip()", f"{lname}.lstrip()")
-            src_ok = False
-            if ok:
-                # the variable stripped is the loop variable over the main module's lines
-                d0s = rd.at(d.node, lname)
-                for d0 in d0s:
-                    if d0.kind == "for":
-                        it = norm(d0.value)
-                        src_ok = it.endswith(".splitlines()") or '.split("\\n")' in it or ".split('\\n')" in it
-            chk.judge("R15.c", key + ":guard is on the stripped line", ok and src_ok,
-                      f"the '#' test is applied to {lname} = {t}, expected the stripped current line of the source", {"line_def": t},
-                      f"{sc.mod.path}:{hash_guard.lineno} in compile_code")
-        # R15.d assigned object / name / value
-        od = sc.single_def(norm(obj), n.id) if isinstance(obj, ast.Name) else None
-        chk.judge("R15.d", key + ":object is the options variable", isinstance(obj, ast.Name) and obj.id == sc.opt_param,
-                  f"setattr target is {norm(obj)}", None, f"{sc.mod.path}:{call.lineno}")
+                  "applying a directive is not dominated by a test that the line starts with '#'", None, where)
+        if hash_guard is not None:
+            test, lexpr = hash_guard
+            tn = [x.id for x in cfg.nodes_of(test)]
+            chain = _provenance(sc, lexpr, tn[0] if tn else n.id)
+            stripped = any(op in ("strip", "lstrip") for op in chain)
+            src_ok = bool(chain) and chain[-1].startswith("for:") and (chain[-1].endswith(".splitlines()") or "split('\\n')" in chain[-1])
+            chk.judge("R15.c", key + ":guard is on the stripped line of the source", stripped and src_ok,
+                      f"the '#' test looks at a value with the history {chain}: expected the current line of <source>.splitlines() after strip()",
+                      {"history": chain}, f"{sc.mod.path}:{test.lineno} in compile_code")
+        # ---- R15.d object
+        oname = obj.id if isinstance(obj, ast.Name) else None
+        chk.judge("R15.d", key + ":object is the options variable", oname == sc.opt_param, f"setattr target is {norm(obj)}", None, where)
         defs = sc.options_defs_at(n.id)
         shared = [t for t, fresh in defs if not fresh]
         chk.judge("R15.d", key + ":object is private to this call", bool(defs) and not shared,
                   f"directives are written into an object that outlives the call ({shared}): options named in one source leak "
-                  f"into the caller's object or into later compilations", {"definitions": [t for t, _ in defs]}, f"{sc.mod.path}:{call.lineno}")
-        # value polarity
-        vd = sc.single_def(val.id, n.id) if isinstance(val, ast.Name) else None
-        vexpr = vd.value if vd is not None else val
-        pol_ok = False
-        prefix_call = None
-        if isinstance(vexpr, ast.UnaryOp) and isinstance(vexpr.op, ast.Not):
-            c = vexpr.operand
-            if isinstance(c, ast.Call) and isinstance(c.func, ast.Attribute) and c.func.attr == "startswith" and c.args \
-                    and isinstance(c.args[0], ast.Constant) and c.args[0].value == "no_":
-                pol_ok = True
-                prefix_call = c
-        chk.judge("R15.d", key + ":value is the polarity", pol_ok,
-                  f"assigned value {norm(vexpr)} is not 'not <name>.startswith(\"no_\")'", {"value": norm(vexpr)}, f"{sc.mod.path}:{call.lineno}")
-        # R15.b normalisation before the prefix test, prefix stripped iff matched
-        if prefix_call is not None and isinstance(prefix_call.func.value, ast.Name) and vd is not None:
-            tname = prefix_call.func.value.id
-            td = sc.single_def(tname, vd.node)
-            t = norm(td.value) if td is not None and td.value is not None else ""
-            ok = ".replace('-', '_')" in t
-            chk.judge("R15.b", key + ":'-' normalised before the 'no_' test", ok,
-                      f"{tname} is {t!r} when tested for the 'no_' prefix: 'no-x' would not be recognised", {"name_def": t},
-                      f"{sc.mod.path}:{prefix_call.lineno}")
-            # the name passed to setattr: either the same def (value True) or the def stripping 3 chars under (value False)
-            nds = rd.at(n.id, tname)
-            strip_ok, others = False, []
-            for dd in nds:
-                if dd is td:
-                    continue
-                tt = norm(dd.value) if dd.value is not None else ""
-                g = [(norm(t_), p) for t_, p in cfg.guards(dd.node) if isinstance(t_, ast.expr)]
-                if tt.startswith(f"{tname}[3:]") and (norm(val), False) in g:
-                    strip_ok = True
-                else:
-                    others.append(tt)
-            chk.judge("R15.b", key + ":prefix stripped only when it matched", strip_ok and not others and any(dd is td for dd in nds),
-                      f"definitions of {tname} reaching setattr: {[norm(dd.value) for dd in nds if dd.value is not None]}", None,
-                      f"{sc.mod.path}:{call.lineno}")
+                  f"into the caller's object or into later compilations", {"definitions": [t for t, _ in defs]}, where)
     # no other attribute store on options
     stores = []
     for node in ast.walk(sc.fn):
@@ -187,6 +366,48 @@ def run(repo: Repo, chk: Check):
                     stores.append(norm(node))
     chk.judge("R15.d", "compiler:compile_code:no other option store", not stores, f"options attributes are also assigned by {stores}", None, sc.where)
     r15e(sc, chk, "R15.e")
+    if pending_error and not chk.findings:
+        raise AnalysisError(pending_error)
+
+
+def _is_field_set(repo, sc, e, fields, depth=0):
+    """Does *e* denote the set of CompileOptions field names?"""
+    t = norm(e)
+    if t.endswith("__dataclass_fields__") and ("CompileOptions" in t or sc.opt_param in t or "type(" in t):
+        return True
+    if "fields(" in t and ("CompileOptions" in t or sc.opt_param in t):
+        return True
+    if isinstance(e, (ast.Tuple, ast.List, ast.Set)) and all(isinstance(x, ast.Constant) for x in e.elts):
+        return {x.value for x in e.elts} <= set(fields)
+    if isinstance(e, ast.Call) and norm(e.func) in ("frozenset", "set", "tuple", "list", "sorted") and len(e.args) == 1:
+        return _is_field_set(repo, sc, e.args[0], fields, depth + 1)
+    if isinstance(e, ast.Name) and depth < 3:
+        # a local bound once, or a module-level constant (possibly imported)
+        ds = [d for d in sc.rd.all_defs if d.name == e.id]
+        if len(ds) == 1 and ds[0].kind == "assign" and ds[0].value is not None:
+            return _is_field_set(repo, sc, ds[0].value, fields, depth + 1)
+        got = repo.lookup(sc.mod, e.id)
+        if got and isinstance(got[1], (ast.Assign, ast.AnnAssign)) and got[1].value is not None:
+            return _is_field_set(repo, sc, got[1].value, fields, depth + 1)
+    return False
+
+
+def _provenance(sc, e, nid, depth=0):
+    """History of a line expression back to the loop it comes from: ['strip', 'alias', 'for:<iter>']."""
+    if depth > 8:
+        return ["?"]
+    if isinstance(e, ast.Call) and isinstance(e.func, ast.Attribute) and e.func.attr in ("strip", "lstrip", "rstrip") and not e.args:
+        return [e.func.attr] + _provenance(sc, e.func.value, nid, depth + 1)
+    if isinstance(e, ast.Name):
+        ds = sc.rd.at(nid, e.id)
+        if len(ds) == 1:
+            d = ds[0]
+            if d.kind == "for":
+                return ["for:" + norm(d.value)]
+            if d.kind == "assign" and d.value is not None and not d.index:
+                return ["alias"] + _provenance(sc, d.value, d.node, depth + 1) if isinstance(d.value, ast.Name) else _provenance(sc, d.value, d.node, depth + 1)
+        return ["?:" + e.id]
+    return ["?:" + norm(e)[:30]]
 
 
 def r15e(sc: Scanner, chk: Check, rule: str):
@@ -271,8 +492,10 @@ def r15e(sc: Scanner, chk: Check, rule: str):
         d = sc.single_def(base, ids[0]) if ids else None
         if d is not None and d.value is not None:
             detail = norm(d.value)
-            ok = detail in (f"{sc.src_param}[''] if isinstance({sc.src_param}, dict) else {sc.src_param}",) or \
-                (f"{sc.src_param}['']" in detail and f"isinstance({sc.src_param}, dict)" in detail)
+            v = d.value
+            ok = isinstance(v, ast.IfExp) and {norm(v.body), norm(v.orelse)} == {f"{sc.src_param}['']", sc.src_param} and (
+                (norm(v.test) == f"isinstance({sc.src_param}, dict)" and norm(v.body) == f"{sc.src_param}['']") or
+                (norm(v.test) == f"not isinstance({sc.src_param}, dict)" and norm(v.orelse) == f"{sc.src_param}['']"))
         elif base == sc.src_param:
             ok, detail = False, base
     chk.judge(rule, "compiler:compile_code:scanned text is the main source", ok, f"scanner iterates over {detail}", {"text": detail}, sc.where)
